@@ -86,6 +86,7 @@ var (
 	cBusy          = simrt.RegisterCounter("op_busy_server_many_connections_and_devices")
 	fMICOtherKey   = simrt.RegisterCounter("join_request_signed_with_another_key_of_the_device_or_the_zero_key")
 	cHexTextKEK    = simrt.RegisterCounter("configuration_kek_whose_bytes_are_printable_hexadecimal_text")
+	cKeysOnly      = simrt.RegisterCounter("configuration_device_key_callback_leaves_the_deveui_member_blank")
 	cBare          = simrt.RegisterCounter("configuration_without_kek_label_and_home_netid_callbacks")
 	cDecoyCalled   = simrt.RegisterCounter("callback_of_another_handler_of_the_process_called")
 	cBareRefused   = simrt.RegisterCounter("configuration_without_optional_callbacks_refused_by_newhandler")
@@ -285,15 +286,16 @@ type reqCtx struct {
 }
 
 type world struct {
-	devs    []*devRec
-	byEUI   map[lorawan.EUI64]*devRec
-	keks    map[string][]byte
-	handler http.Handler
-	cur     [simrt.MaxTasks]*reqCtx
-	faults  bool
-	nNS     int
-	allSlow int64
-	bare    bool // the handler is configured with the device-key callback only
+	devs     []*devRec
+	byEUI    map[lorawan.EUI64]*devRec
+	keks     map[string][]byte
+	handler  http.Handler
+	cur      [simrt.MaxTasks]*reqCtx
+	faults   bool
+	nNS      int
+	allSlow  int64
+	bare     bool // the handler is configured with the device-key callback only
+	keysOnly bool // the device-key callback leaves DeviceKeys.DevEUI blank
 }
 
 var theWorld *world
@@ -460,7 +462,13 @@ func (w *world) getDeviceKeys(devEUI lorawan.EUI64) (joinserver.DeviceKeys, erro
 	g := curGen(rec.idx)
 	logSto(stoEv{kind: seKeys, dev: dev, nonce: n, gen: g})
 	d := rec.gens[g]
-	return joinserver.DeviceKeys{DevEUI: devEUI, NwkKey: lorawan.AES128Key(d.NwkKey), AppKey: lorawan.AES128Key(d.AppKey), JoinNonce: n}, nil
+	dk := joinserver.DeviceKeys{DevEUI: devEUI, NwkKey: lorawan.AES128Key(d.NwkKey), AppKey: lorawan.AES128Key(d.AppKey), JoinNonce: n}
+	if w.keysOnly {
+		// a store that returns the key material it was asked for and leaves the
+		// identifier member of the record blank (the caller knows whom it asked about)
+		dk.DevEUI = lorawan.EUI64{}
+	}
+	return dk, nil
 }
 
 //go:norace
@@ -741,6 +749,10 @@ func build(sw *sim.World) {
 	w.bare = !busy && simrt.Choose(8) == 1
 	if w.bare {
 		simrt.Count(cBare)
+	}
+	w.keysOnly = simrt.Choose(4) == 1
+	if w.keysOnly {
+		simrt.Count(cKeysOnly)
 	}
 	for i := 0; i < nDev; i++ {
 		rec := &devRec{idx: i, known: true}
